@@ -32,8 +32,9 @@ type Resp struct{ Tag string }
 type WrongResp struct{ X int }
 
 type plug struct {
-	name  string
-	check bool
+	name   string
+	noresp bool
+	check  bool
 	s     *sched
 }
 
@@ -48,7 +49,12 @@ func (p *plug) ValidateReq(req any) error {
 	return nil
 }
 func (p *plug) Request() any  { return Req{} }
-func (p *plug) Response() any { return Resp{} }
+func (p *plug) Response() any {
+	if p.noresp {
+		return nil // a plugin that declares no response type
+	}
+	return Resp{}
+}
 func (p *plug) IsCheck() bool { return p.check }
 func (p *plug) RetryPolicy() exponential.Policy {
 	return exponential.Policy{InitialInterval: time.Millisecond, Multiplier: 1.1, RandomizationFactor: 0, MaxInterval: 2 * time.Millisecond}
